@@ -452,6 +452,8 @@ type FuncSpec struct {
 	Pure      bool // modifies nothing and result is a function of args+heap (trusted/extern use)
 	MayPanic  bool // explicit panics are part of the contract (not an obligation)
 	KFs       []KFAssume
+	WorkerEnsures []*SExpr
+	ChanNonNil bool
 	SiteKFs   map[string][]KFAssume
 	Asserts   map[string][]*SExpr // site key -> assertions
 	File      string
@@ -631,6 +633,18 @@ func parseClause(f *FuncSpec, word, rest string) error {
 			return err
 		}
 		f.Modifies = append(f.Modifies, es...)
+	case "worker":
+		w, r2 := splitWord(rest)
+		if w != "ensures" {
+			return fmt.Errorf("worker: expected ensures")
+		}
+		e, err := parseSpecExpr(r2)
+		if err != nil {
+			return err
+		}
+		f.WorkerEnsures = append(f.WorkerEnsures, e)
+	case "chan-values-nonnil":
+		f.ChanNonNil = true
 	case "trusted":
 		f.Trusted = true
 	case "inline":
